@@ -19,7 +19,7 @@ FAtoms == [ A |-> LikeA("a"), B |-> LikeA("b"), D |-> LikeA("d"), T |-> A1("leng
 (* Two items: an aggregate then a key, or the two keys of a pair in the other order (the orders disagree on W7).          *)
 OKey(i, d) == [by |-> "key", i |-> i, desc |-> d]
 OAgg(j, d) == [by |-> "agg", i |-> j, desc |-> d]
-IntAggs(f) == { x \in 1 .. Len(f) : f[x] \in {"count", "sum", "min", "max"} }
+IntAggs(f) == { x \in 1 .. Len(f) : f[x] \in {"count", "sum", "min", "max", "avg"} }      \* (aggregates with an order: whole numbers and the average)
 Orders(k, f) == { <<>> }
                 \cup { <<OKey(i, d)>> : i \in 1 .. Len(k), d \in BOOLEAN }
                 \cup { <<OAgg(j, d)>> : j \in IntAggs(f), d \in BOOLEAN }
